@@ -146,20 +146,21 @@ Proof.
   destruct r as [|[|[|r]]]; try lia; reflexivity.
 Qed.
 
-Theorem conv_geometry gs st code embed st' go :
+Theorem conv_geometry_dev gs st code embed st' go :
   wf st -> gfiles_ok gs st ->
   conv_geom gs st code embed = (st', Ok go) ->
   forall S T V r c,
     0 < S -> 0 < T -> 0 < V ->
     o_shape (go_nifti go) = grid_shape r c S T V ->
-    on_line gs (go_ord0 go) S ->
+    forall e, on_line_dev gs (go_ord0 go) S e ->
     forall s t v i j g idx',
       s < S -> t < T -> v < V ->
       file_at gs (go_ord0 go) (cell_pos S T s t v) = Some g ->
       apply_aff (go_T go) idx' = Some (cell_idx (length (grid_shape r c S T V)) i j s t v) ->
-      veq3 (world (go_aff go) idx') (ras (pixel_pos g i j)).
+      forall q, q < 3 ->
+        (vget (world (go_aff go) idx') q + sg q * e (cell_pos S T s t v) q == vget (ras (pixel_pos g i j)) q)%Q.
 Proof.
-  intros Hwf Hok H S' T' V' r' c' HS' HT' HV' Hosh' Hline s t v i j g idx' Hs Ht Hv Hg Happ.
+  intros Hwf Hok H S' T' V' r' c' HS' HT' HV' Hosh' e Hline s t v i j g idx' Hs Ht Hv Hg Happ.
   destruct (conv_setup _ _ _ _ _ _ Hwf H)
     as (st1 & st2 & i0 & col & S & T & V & r & c & Hd & Hwf1 & Ha & Hfi2 & Hord & Hperm & HS & HT & HV & Hlen & Hrc
         & Hi0 & Hcol & Hfpv & Hg0 & HA0 & Hd0 & Hre & Hn & _).
@@ -209,4 +210,30 @@ Proof.
     assert (Hf0' : glookup gs i0 = Some g0) by (rewrite Hg0; f_equal; exact Hg0').
     rewrite (Hc2 _ _ g0 g1 (Hcol ES) Hf0' Hf1 k Hk). ring.
   - apply Nat.ltb_ge in ES. assert (s = 0) by lia. subst s. change (NQ 0) with 0%Q. ring.
+Qed.
+
+Lemma on_line_is_dev gs ord S : on_line gs ord S -> on_line_dev gs ord S (fun _ _ => 0%Q).
+Proof.
+  intros (g0 & g1 & H0 & H1 & Hall). exists g0, g1. split; [exact H0|]. split; [exact H1|].
+  intros k g Hg. destruct (Hall k g Hg) as [Hsf Hipp]. split; [exact Hsf|].
+  intros r Hr. rewrite (Hipp r Hr). ring.
+Qed.
+
+Theorem conv_geometry gs st code embed st' go :
+  wf st -> gfiles_ok gs st ->
+  conv_geom gs st code embed = (st', Ok go) ->
+  forall S T V r c,
+    0 < S -> 0 < T -> 0 < V ->
+    o_shape (go_nifti go) = grid_shape r c S T V ->
+    on_line gs (go_ord0 go) S ->
+    forall s t v i j g idx',
+      s < S -> t < T -> v < V ->
+      file_at gs (go_ord0 go) (cell_pos S T s t v) = Some g ->
+      apply_aff (go_T go) idx' = Some (cell_idx (length (grid_shape r c S T V)) i j s t v) ->
+      veq3 (world (go_aff go) idx') (ras (pixel_pos g i j)).
+Proof.
+  intros Hwf Hok H S T V r c HS HT HV Hosh Hline s t v i j g idx' Hs Ht Hv Hg Happ q Hq.
+  pose proof (conv_geometry_dev gs st code embed st' go Hwf Hok H S T V r c HS HT HV Hosh _ (on_line_is_dev _ _ _ Hline)
+                s t v i j g idx' Hs Ht Hv Hg Happ q Hq) as G.
+  rewrite <- G. ring.
 Qed.
